@@ -30,6 +30,9 @@ impl Scales {
     /// scales from the inputs: Σ|values| per carrier, times max(1, max |factor|) for weighted
     /// quantities; the electricity carrier also gets the weighted cogeneration input.
     pub fn from_inputs(lines: &[MLine], n: usize, ft: &FTable, area: f64) -> Scales {
+        // `n` is the length of the longest chain of f32 additions behind a figure: the steps of the year, plus the
+        // lines of the file when there are hundreds of them (a 1 500-line building was observed to drift by 1.7e-5)
+        let n = n + lines.len().saturating_sub(64);
         let mut sc = Scales { n, area, ..Default::default() };
         // the derived factor of cogenerated electricity belongs to the electricity carrier's
         // factors: it is unbounded when the cogenerated amount is small against its input
